@@ -19,7 +19,9 @@ import (
 	"os/exec"
 	"path/filepath"
 	"regexp"
+	"runtime"
 	"runtime/debug"
+	"runtime/pprof"
 	"sort"
 	"strconv"
 	"strings"
@@ -194,7 +196,7 @@ func (c *child) pick(rng *rand.Rand, name string) []byte {
 			return bz
 		}
 	}
-	return seeds[rng.Intn(len(seeds))]
+	return append([]byte{}, seeds[rng.Intn(len(seeds))]...) // a copy: mutators and canopy code must never touch the corpus
 }
 
 var sysLenTargets = []string{"QuorumCertificate", "BlockMessage", "Block", "Transaction", "bft.Message", "TxMessage", "DoubleSignEvidence"}
@@ -719,6 +721,7 @@ func childMain(t *testing.T) {
 		c.emit(childRec{T: "done"})
 		return
 	}
+	debug.SetMemoryLimit(3 << 30) // keeps the collector ahead of bursts of large inputs; no effect on what is executed
 	c.e = newEnv(true)
 	defer c.e.close()
 	c.e.buildCorpus()
@@ -727,9 +730,13 @@ func childMain(t *testing.T) {
 		caseRe = regexp.MustCompile(s)
 	}
 	// watchdog: a generous per-input limit; firing ends the child, the parent re-runs the input alone
+	ppid := os.Getppid()
 	go func() {
 		for {
 			time.Sleep(500 * time.Millisecond)
+			if os.Getppid() != ppid {
+				os.Exit(5) // the parent is gone: do not linger as an orphan
+			}
 			st := c.curStart.Load()
 			if st != 0 && time.Since(time.Unix(0, st)) > time.Duration(c.hangSec)*time.Second {
 				name, _ := c.curCase.Load().(string)
@@ -825,6 +832,13 @@ func childMain(t *testing.T) {
 		c.flushApply()
 	}
 	c.counts["canopy_recover_log_lines"] = c.e.log.recovered.Load()
+	if debugTiming {
+		if f, err := os.Create(filepath.Join(dir, fmt.Sprintf("heap-%d.pprof", shard))); err == nil {
+			runtime.GC()
+			_ = pprof.WriteHeapProfile(f)
+			f.Close()
+		}
+	}
 	combos := make([]string, 0, len(c.combos))
 	for k := range c.combos {
 		combos = append(combos, k)
